@@ -122,6 +122,9 @@ type HarnessResult struct {
 	Samples  []string
 	MaxDepth int
 	SampleInputs []SampleInput
+	Witnesses    []Witness // candidate path witnesses for the native translator validation
+	witSig       map[string]int
+	NotComparable int // complete paths that cannot be compared with a native run
 	Stopped      bool // exploration was cut short after the first violation
 }
 
@@ -266,6 +269,25 @@ func (w *World) RunHarness(pkg, fn string, opts *RunOpts, pool *SolverPool, work
 					}
 					if len(hr.Samples) < 3 && res.End == "return" {
 						hr.Samples = append(hr.Samples, fmt.Sprintf("decisions=%v", res.Prefix))
+					}
+					if res.End == "return" && res.NotComparable != "" {
+						hr.NotComparable++
+					}
+					if res.End == "return" && res.Inputs != nil && res.NotComparable == "" && len(hr.Witnesses) < 200 {
+						clean := true
+						for _, a := range res.Asserts {
+							if a.Status != "proved" && a.Status != "trivially-true" {
+								clean = false
+							}
+						}
+						sig := strings.Join(res.Reached, ",")
+						if hr.witSig == nil {
+							hr.witSig = map[string]int{}
+						}
+						if clean && hr.witSig[sig] < 3 {
+							hr.witSig[sig]++
+							hr.Witnesses = append(hr.Witnesses, Witness{Prefix: res.Prefix, Inputs: res.Inputs, Reached: append([]string{}, res.Reached...)})
+						}
 					}
 					if len(hr.SampleInputs) < 2 && res.End == "return" && res.Inputs != nil {
 						hr.SampleInputs = append(hr.SampleInputs, SampleInput{Prefix: res.Prefix, Inputs: res.Inputs})
